@@ -150,6 +150,42 @@ struct ExpRunner {
 	void end() { f.kill(); s.kill(); }
 };
 
+// ------------------------------------------------------------------ expected<E, void>
+struct ExpVoidRunner {
+	using F = frg::expected<Err>; using S = std::expected<void, Err>;
+	Two<F> f; Two<S> s; bool bad = false;
+	void begin() { f.make(1); f.make(2); s.make(1); s.make(2); }
+	bool apply(const Op &o) {
+		int d = o.d, q = 3 - o.d;
+		if(o.name == "default") { f.make(d); s.make(d); }
+		else if(o.name == "success") { f.make(d, frg::success); s.make(d); }
+		else if(o.name == "error") { f.make(d, (Err)o.x); s.make(d, std::unexpected<Err>((Err)o.x)); }
+		else if(o.name == "copy_construct") { f.make(d, f.at(q)); s.make(d, s.at(q)); }
+		else if(o.name == "move_construct") { f.make(d, std::move(f.at(q))); s.make(d, std::move(s.at(q))); }
+		else if(o.name == "copy_assign") { f.at(d) = f.at(q); s.at(d) = s.at(q); }
+		else if(o.name == "move_assign") { f.at(d) = std::move(f.at(q)); s.at(d) = std::move(s.at(q)); }
+		else if(o.name == "unwrap" && !s.at(d).has_value()) return false;
+		else if(o.name == "unwrap") f.at(d).unwrap();
+		else if(o.name == "map_error") {
+			auto flip = [](Err e) { return (Err)((int)e == 1 ? 2 : 1); };
+			if(s.at(q).has_value()) s.make(d); else { Err e = flip(s.at(q).error()); s.make(d, std::unexpected<Err>(e)); }
+			f.make(d, f.at(q).map_error(flip));
+		}
+		else return false;
+		return true;
+	}
+	std::string obs(bool ref) {
+		std::string r = "[";
+		for(int d = 1; d <= 2; d++) {
+			if(d == 2) r += ",";
+			if(!ref) { auto &h = f.at(d); bool ok = (bool)h; r += pair_json(ok ? (h.maybe_error() == Err::none ? 1 : 9) : (h.maybe_error() == h.error() ? 2 : 9), ok ? 0 : (long long)h.error()); }
+			else { auto &h = s.at(d); r += pair_json(h.has_value() ? 1 : 2, h.has_value() ? 0 : (long long)h.error()); }
+		}
+		return r + "]";
+	}
+	void end() { f.kill(); s.kill(); }
+};
+
 // ------------------------------------------------------------------ variant
 struct Small { char c; Small(long long x = 0) : c((char)x) {} };
 struct Plain { long long v; Plain(long long x = 0) : v(x) {} };
@@ -295,6 +331,7 @@ int main(int argc, char **argv) {
 		auto with = [&](auto r) { run_one(r, kind, elem, h); };
 		if(kind == "optional") { if(elem == "int") with(OptRunner<long long, true>{}); else if(elem == "tracked") with(OptRunner<Tracked, true>{}); else with(OptRunner<MoveOnly, false>{}); }
 		else if(kind == "expected") { if(elem == "int") with(ExpRunner<long long, true>{}); else if(elem == "tracked") with(ExpRunner<Tracked, true>{}); else with(ExpRunner<MoveOnly, false>{}); }
+		else if(kind == "expected_void") with(ExpVoidRunner{});
 		else if(kind == "variant") { if(elem == "int") with(VarRunner<Plain, true>{}); else if(elem == "tracked") with(VarRunner<Tracked, true>{}); else with(VarRunner<MoveOnly, false>{}); }
 		else if(kind == "manual_box") { if(elem == "tracked") with(BoxRunner<Tracked>{}); else with(BoxRunner<long long>{}); }
 	};
